@@ -848,6 +848,7 @@ struct OpsAd {
       std::vector<mpz_class> vs;
       for (int k = -3; k <= 3; ++k) for (int dl = -2; dl <= 2; ++dl) vs.push_back(mpz_class(P * k + dl));
       for (auto& b : {big, huge}) for (int dl = -1; dl <= 1; ++dl) { vs.push_back(mpz_class(b + dl)); vs.push_back(mpz_class(-b + dl)); }
+      std::vector<mpz_class> core = vs;
       if (P <= g_cfg.tc) for (mpz_class v = -2 * P - 1; v <= 2 * P + 1; ++v) vs.push_back(v);
       for (auto& v : vs) {
         cx.ops(&v);
@@ -856,7 +857,7 @@ struct OpsAd {
         ++tot().tuples; ++tot().nontrivial;
         for (auto& B : Bs) { t.binary(v, B, regime2(v, B, P)); t.binary(B, v, regime2(B, v, P)); t.fused(v, B, B, regime2(v, B, P)); t.fused(B, B, v, regime2(B, v, P)); }
       }
-      for (auto& v : vs) for (auto& w : vs) if (abs(v) < 4 * P && abs(w) < 4 * P) t.binary(v, w, regime2(v, w, P));
+      for (auto& v : core) for (auto& w : core) if (abs(v) < 4 * P && abs(w) < 4 * P) t.binary(v, w, regime2(v, w, P));
     } else {
       i128 Pn = P;
       std::vector<i128> vs;
